@@ -1,7 +1,7 @@
 """manifest_text.py - wording of the MANIFEST entries (what each check claims and trusts)."""
 HOOK_COMMITS = ["50cd013"]
 PENDING = "check under construction in this session (harness not yet registered); see DESIGN.md section 4 for the planned oracle"
-NOT_APPLICABLE = {p: PENDING for p in ["C03", "C04", "C05", "C06", "C07", "C09", "C10", "C11", "C12", "C13", "C14", "C15", "C16", "C17", "C18", "C19", "C20"]}
+NOT_APPLICABLE = {p: PENDING for p in ["C03", "C05", "C07", "C13", "C14", "C16", "C17", "C18", "C20"]}
 TEXT = {
  "C01": dict(
     technique="property-based testing (rapidcheck): LPs with planted primal-dual certificates x parameter combinations, exact GMP certificate oracle",
@@ -16,3 +16,38 @@ TEXT = {
     level_text="The simplifier is driven directly on presolve-rich planted LPs: verdicts against the planted class, reduced LP + offset against the planted optimum (z3, exact), postsolve of several optimal vertices of the reduced LP against the exact certificate oracle on the original LP, basis validity. Exploration; the dual side of postsolved vectors is currently recorded as a known finding at sub-claim level.",
     level_note="trusted: z3 5.1 on LPs <= 16x16, the certificate oracle; the reduced LP is solved by SoPlex (no simplifier/scaler) and that answer is certified before use"),
 }
+
+TEXT.update({
+ "C04": dict(
+    technique="property-based testing (rapidcheck) of API histories: basis validity / consistency / exact regularity after every step",
+    level_text="Generated API histories (modifications, solves with every ending, setBasis/getBasis round trips, clearBasis) under random configurations; whenever hasBasis() is true the basis is checked: one basic variable per row, no nonbasic variable at an infinite bound, FIXED only for equal bounds, per-variable queries = array query = index query; bases returned by solves are checked to be nonsingular by exact rank computation over Q on the model's matrix; every solve is compared with a fresh solver given the final LP (warm start = cold start). Exploration.",
+    level_note="trusted: the exact reference model, GMP, z3 5.1 for small LPs; known findings (getBasisInd between a modification and the next solve, nonbasic rows turned free) are excluded by construction"),
+ "C06": dict(
+    technique="model-based property testing (rapidcheck): real modification interface vs exact reference LP model, fresh-solver differential",
+    level_text="Histories over ~35 modification entry points interleaved with solves; after every step every accessor is compared bit for bit with a 150-line reference model (documented renumbering only), cached solutions must be invalidated, every solve is certified (exact certificate oracle, z3 truth for small LPs) and compared with a fresh solver that is given the final LP in one go; a second stage runs the same interpreter under ASan/UBSan. Exploration.",
+    level_note="trusted: reference model (harness/common/vf.hpp, hist_common.hpp), certificate oracle, z3 5.1; zero-dimensional solves are not judged"),
+ "C09": dict(
+    technique="model-based property testing (rapidcheck) with scaling-biased configurations; bit-exact accessor comparison",
+    level_text="The history interpreter of C06 with a scaler and persistent scaling active in most cases: data added or changed while the LP is scaled must be stored consistently (bit-exact accessor comparison against the unscaled model, which is only possible because scale factors are powers of two), solutions/rays/Farkas vectors after scaled solves are certified in the unscaled space. Exploration; bare-scaler bitwise checks are not a separate stage.",
+    level_note="trusted: as C06; whether the LP inside is scaled is observed through the guarded read-only hook"),
+ "C10": dict(
+    technique="property-based testing (rapidcheck) of SLUFactor<double> standalone against an exact GMP reference matrix",
+    level_text="Matrices with constructed conditioning (and exactly singular ones) are loaded into SLUFactor, updated by column replacements under Forrest-Tomlin and product-form (caller protocol of SPxBasisBase::change), and every right/left solve variant is judged by its residual computed exactly from the returned doubles; multi-rhs variants must agree with single solves. Exploration.",
+    level_note="trusted: GMP residual code in harness/c10.cpp; reference matrices are well conditioned by construction; rounding-dependent singular cases are measured, not judged"),
+ "C11": dict(
+    technique="property-based testing (rapidcheck): SLUFactorRational vs exact Gaussian elimination; rational basis queries vs exact model",
+    level_text="Rational matrices (wide bit lengths, regular-but-double-singular, exactly singular) are factorised and solved; status SINGULAR iff exact determinant 0; all solves equal the exact solution. Solver bases after exact solves: getBasisIndRational / getBasisInverse{Row,Col,TimesVec}Rational are exact inverses of the basis matrix assembled from the model, also after modifications. Exploration.",
+    level_note="trusted: own fraction elimination over GMP rationals; two known findings (stale cached factorisation after a silent basis replacement, out-of-sync dimensions after an UNBOUNDED rational solve) excluded"),
+ "C12": dict(
+    technique="property-based round-trip testing (rapidcheck) + exhaustive enumeration of the literal grammar to length 7",
+    level_text="LPs x {LP,MPS} x {real,rational} x writer flags are written, read into a fresh object and compared by name with the model under the documented normalisations (then both solved); 247k grammar literals are enumerated exhaustively plus random long ones and compared with an own exact decimal parser (rational) / MPFR correctly rounded doubles (real); the dual writer is checked by optimal values. Exploration with an exhaustive sub-stage.",
+    level_note="trusted: own literal parser, MPFR rounding, the normalisations cited in harness/c12.cpp; fraction literals in floating-point readers are a known finding"),
+ "C15": dict(
+    technique="stateful property-based testing (rapidcheck) + exhaustive boundary sweep of every parameter",
+    level_text="Sequences of typed sets, text-form sets, save/load, reset, copy-settings on two objects with a model table read from the library's own static tables and enums; rejected values must change nothing (full observable snapshot incl. LP), text/file forms must equal typed calls, save-reset-load reproduces values; a sweep enumerates every parameter x {below, lower, default, upper, above, NaN, +-inf}. Exploration + enumeration.",
+    level_note="trusted: the parameter tables themselves are the specification of ranges/defaults; PaPILO-only parameters are modelled as the source documents"),
+ "C19": dict(
+    technique="model-based property testing (rapidcheck) of 20 container/vector kinds against std:: models, also under ASan/UBSan/LSan",
+    level_text="Operation sequences on DataSet, ClassSet, SVSet, LPRowSet/LPColSet, NameSet, DataHashTable, IdxSet/DIdxSet, DataArray/Array/ClassArray, IdList/IsList, Sorter and the vector classes (double with exact data, Rational) are mirrored on std:: models and compared after every operation (keys, dense numbering, permutations, contents, lifetimes, exact arithmetic); a second stage runs under sanitizers. Exploration.",
+    level_note="trusted: std:: containers, GMP; preconditions documented in the headers are respected by construction; ClassSet element lifetime is a known finding"),
+})
